@@ -433,9 +433,16 @@ func lz2Specs() []lz2Spec {
 			if r == "tailparam" && (d.decl == "func" || d.rest) {
 				continue // a function-valued parameter has no declared type; the extra parameter fixes the arity
 			}
+			wide := r == "direct" || r == "rec" || r == "taillet" || r == "deaddefn" || r == "oldclosure"
+			if d.rest && !wide && r != "incaller" {
+				continue
+			}
 			masks(3, func(n, m int) {
 				pats := []string{"none", "once", "twice", "subst", "later2"}
 				if n == 3 {
+					if !wide || d.rest {
+						return
+					}
 					pats = []string{"once"}
 				}
 				for _, p := range pats {
@@ -465,7 +472,7 @@ func lz2Specs() []lz2Spec {
 					if ak == "errstrict" && m == 1<<n-1 || ak != "errstrict" && m == 0 {
 						return // no position of that kind
 					}
-					for _, p := range []string{"none", "once", "twice", "later2", "oncelater", "reverse"} {
+					for _, p := range []string{"once", "twice", "later2", "oncelater"} {
 						if ak == "errstrict" && p != "once" {
 							continue // the body is never entered
 						}
@@ -484,7 +491,7 @@ func lz2Specs() []lz2Spec {
 		for _, sh := range []string{"", "infix-let", "func-let", "infix-param"} {
 			for _, r := range []string{"direct", "incaller", "rec"} {
 				for _, d := range []string{"defn", "func"} {
-					if sh == "infix-param" && r == "rec" {
+					if r == "rec" && (sh == "infix-param" || d == "func") {
 						continue
 					}
 					masks(2, func(n, m int) {
